@@ -18,12 +18,13 @@ from props import c06_util as X
 
 PROP = "C06"
 LEVEL = "proof"
-GEN_UNITS = ["GenUtils"]
-COQ_TARGETS = ["Props/C06.vo", "Model/C06Stm.vo", "Model/C06Cont.vo", "Model/Harness.vo"]
-THEOREM_FILES = ["Props/C06.v"]
+GEN_UNITS = ["GenUtils", "GenSptensor4"]     # GenSptensor4: Props/C06W4.v C06_gen_permute / C06_gen_ones are about the generated whole methods
+COQ_TARGETS = ["Props/C06.vo", "Props/C06W4.vo", "Model/C06Stm.vo", "Model/C06Cont.vo", "Model/C06W4.vo", "Model/Harness.vo"]
+THEOREM_FILES = ["Props/C06.v", "Props/C06W4.v"]
 COQ_IMPORTS = ("From Coq Require Import List ZArith Bool QArith Qcanon.\n"
                "From PV Require Import Base.Index Np.Array Model.Sparse Model.Repr Model.Harness Model.C03Ops Model.C06Ops Model.C01Conv Model.C06Stm Model.C06Cont\n"
-               "                       Model.C02Spec Model.C02Sparse Model.C02SpKernels Model.C02SpMore Model.C07Ops.\n"
+               "                       Model.C02Spec Model.C02Sparse Model.C02SpKernels Model.C02SpMore Model.C07Ops\n"
+               "                       Gen.GenUtils Model.C03Gen Model.C03Chk2 Model.C01Unique Model.C01Coo Model.C06W4.\n"
                'Set Warnings "-abstract-large-number".\n')
 RULE = ("stream 1: every C03 request (operator x right-hand-side kind) on all zero-pattern pairs of the shapes (2,2) [operators rotated] and "
         "(3,) [all operators], plus seeded larger shapes; squash and from_aggregator with permuted input rows. stream 2 (admissible requests "
@@ -47,8 +48,27 @@ RULE = ("stream 1: every C03 request (operator x right-hand-side kind) on all ze
         "request of streams 1-2 is re-run for ALL n! stored orders (n <= 4) of each sparse operand, identity/reversed/3 random orders "
         "beyond 4 nonzeros (histories and chains: at most 8 orders besides the identity); every stream-2/3 request is also re-run with the "
         "operand's subscript array Fortran-ordered and with both arrays as strided views handed over without a copy; non-trivial = at "
-        "least two distinct stored orders were run, or a history / chain / generator case; distinct = distinct (op, args)")
-EXPLANATION = ("Theorems: uniqueness of the representation up to stored order (canon_unique), canonical form, order independence of "
+        "least two distinct stored orders were run, or a history / chain / generator case; distinct = distinct (op, args). WAVE 4: huge "
+        "operands — more than 2**22 candidate (search row, source row) pairs inside pyttb's row helpers, i.e. both row lists longer than "
+        "2048 (sparse*sparse on (13,14,13); extract on (48,48) and innerprod on (13,14,13) with ~2150 stored entries / requested rows; "
+        "thorough adds and / le / mask / getitem), stored orders identity / reversed / random per operand, compared by the linear-time "
+        "checkers all_same_sorted / all_same_assoc_sorted on observations handed over sorted by subscript (Coq re-checks strict ascent); "
+        "every sparse/sparse division inside the trigger of C03-N7 and every squash inside the trigger of A-27 is judged a second time, "
+        "WITHOUT attribution, against the as-is models (ops div_asis / squash_asis: every run literally what impl_div_sparse_gen / "
+        "squash_asis return on the operands as stored, structurally well-formed, same array for every stored order); the sptenmat "
+        "constructor and from_array (dense and scipy-coo input, repeated / cancelling / zero triples) are re-run with the triples in "
+        "all m! orders (m <= 4; identity / reversed / 3 random beyond) and tied to C01's constructor models up to stored order")
+EXPLANATION = ("WAVE 4 (Props/C06W4.v, 18 theorems): the aggregating constructors with ARBITRARY input (from_aggregator: C06_from_aggregator(+_indep); "
+               "sptenmat.__init__ and from_array of a non-canonical scipy matrix: C06_stm_ctor, C06_stm_from_coo re-exported from C01, and "
+               "C06_stm_ctor_indep / C06_stm_from_coo_indep: LITERALLY the same object for every order of the input triples); squash as pyttb "
+               "computes it (C06_squash_asis, _indep) with the trigger of A-27 proved exact (C06_squash_asis_spec_iff); sparse/sparse as "
+               "repaired by /repo e2beb21 over the generated row helpers (C06_div_sparse_indep: same array / same entries up to order for "
+               "every stored order of both operands; C06_div_sparse_wf_iff, _ieee: free of explicit zeros IFF the divisor's support lies in the "
+               "dividend's — the trigger of C03-N7, exact); the remaining generated element-wise paths (C06_ops_generated2: S != S2, "
+               "S == T, S != T, _compare as written); the WHOLE generated methods sptensor.permute / sptensor.ones (C06_gen_permute, "
+               "C06_gen_ones over Gen/GenSptensor4.v); ttm over several modes (C06_cont_ttm_chain: the dense intermediate is literally the same for "
+               "every stored order) and innerprod with a Kruskal operand (C06_ops_innerprod_kruskal); soundness of the linear-time checker of the huge cases (C06_sorted_check_sound). "
+               "Theorems: uniqueness of the representation up to stored order (canon_unique), canonical form, order independence of "
                "every operation that is denotationally correct (instantiated for the C03 operators, permute/reshape/squeeze/to_sptenmat/"
                "__setitem__ of sptensor — since wave 3b in TOTAL form incl. index-list keys that repeat an index, tensor-valued right-hand "
                "sides and growth —, squash, sptenmat.__setitem__, and the C02 kernels ttv/ttm/collapse/contract/scale/mask/extract/innerprod/"
@@ -64,12 +84,13 @@ EXPLANATION = ("Theorems: uniqueness of the representation up to stored order (c
                "impl_stm_setitem after every step of a sptenmat history); generators denote what they are asked for (sptendiag: the "
                "super-diagonal; aggregating constructors: the sums), do not alias or change the caller's arrays.")
 CORRESPONDENCE_ONLY = [
-    "__truediv__ (scalar/dense: result well-formedness is part of C03_div_scalar / C03_div_dense_partial; sparse operand: repaired by /repo "
-    "e2beb21 — observed well-formed and order-independent except for the explicit zeros of open finding C03-N7; no C06 theorem), "
-    "logical_or/xor with dense/scalar operands (dense results), __eq__/__ne__ scalar/dense/sparse own paths (proved correct in C03, no separate "
-    "C06 instance): order independence observed on pyttb's raw outputs",
-    "from_aggregator with duplicate input rows (proved in C03_from_aggregator; order independence of the INPUT rows observed only for sum)",
-    "innerprod with a Kruskal operand; norm: the square root (norm^2 is proved order-independent)",
+    "__truediv__ with a scalar / dense operand (result well-formedness is part of C03_div_scalar / C03_div_dense_partial; the sparse operand is "
+    "PROVED since wave 4: C06_div_sparse_wf_iff / _indep / _ieee), logical_or/xor with dense/scalar operands (dense results), __eq__ / __ne__ "
+    "with a scalar: order independence observed on pyttb's raw outputs (S != S2, S == T, S != T, _compare as written: C06_ops_generated2)",
+    "from_aggregator with a reducer other than sum (C03_from_aggregator covers any reducer for the result's well-formedness; order "
+    "independence of the INPUT rows is proved for sum only: C06_from_aggregator_indep)",
+    "innerprod with a Kruskal operand: order independence PROVED (C06_ops_innerprod_kruskal over impl_innerprod_sp_k, tied by the first "
+    "run), its equality with the defining sum is observed (zinner) only; norm: the square root (norm^2 is proved order-independent)",
     "ttm with several matrices (a chain of single-mode products, each covered by C06_cont_ttm) and the 50% switch of ttm with a scipy matrix "
     "(scipy's own stored count decides; both outcomes are tied to ttm_Ynt / its expansion); collapse with a function other than sum; ttv / "
     "collapse / contract containers are PROVED (C06_cont_ttv, _collapse, _contract) over the hand-written assembly model Model/C06Cont.v "
@@ -77,9 +98,12 @@ CORRESPONDENCE_ONLY = [
     "__getitem__ of sptensor beyond the C04 state machine's paths; __setitem__: C06_ops_setitem_total / C06_ops_region_set are about the C04 "
     "state machine step_sparse (tied to pyttb by C04's correspondence); C06 itself generates and observes these requests (raw bits, order "
     "independence) without re-evaluating step_sparse; reshape with old_modes: C06_ops_reshape_modes + first-run tie",
-    "squash: the theorem (C06_squash, C06_ops_squash) is about the specified behaviour; pyttb's result is compared with it in subscripts and "
-    "values, its shape deviates (open finding A-27, pinned by the squash doctest)",
-    "chains, memory layouts, generators (sptendiag, sptenrand, from_function, sptenmat constructor / from_array): observed only",
+    "squash: C06_squash / C06_ops_squash are about the specified behaviour, C06_squash_asis(+_indep,+_spec_iff) about pyttb's (open finding "
+    "A-27, pinned by the squash doctest); pyttb is tied to the specified model outside the trigger and to squash_asis inside it",
+    "sptenmat constructor with copy=False (stores the triples as given: nothing to prove; histories observe it), sptenmat.from_array of a "
+    "dense matrix (C01_from_array_dense; tied to from_array_dense by the first run, no C06 re-export)",
+    "huge operands (> 2**22 candidate row pairs): runs compared with each other (linear-time checkers), model tie only for extract",
+    "chains, memory layouts, generators sptendiag, sptenrand, from_function: observed only",
 ]
 
 
@@ -110,6 +134,25 @@ def mk_case(op, a, rng):
     a = dict(a)
     a["variants"] = variants_for(a, rng)
     return Case(op, a, len(a["variants"]) > 1)
+
+
+def mk_huge(op, a, rng):
+    """huge operands: identity / reversed / one random stored order per sparse operand (4-5 runs instead of 11)"""
+    a = dict(a)
+    na = len(a["subs"])
+    ida, ra = list(range(na)), list(range(na))[::-1]
+    pa = ida[:]
+    rng.shuffle(pa)
+    if a.get("rk") == "sparse":
+        nb = len(a["bsubs"])
+        idb, rb = list(range(nb)), list(range(nb))[::-1]
+        pb = idb[:]
+        rng.shuffle(pb)
+        a["variants"] = [(ida, idb), (ra, idb), (ida, rb), (pa, pb)]
+    else:
+        a["variants"] = [(ida, None), (ra, None), (pa, None)]
+    a["huge"] = True
+    return Case(op, a, True)
 
 
 def permuted(a, pa, pb):
@@ -166,6 +209,17 @@ def gen_cases(rng, tier):
             pa = [int(rng.random() < 0.95) for _ in range(n)]
             pb = [int(rng.random() < 0.95) for _ in range(n)]
             cases.append(mk_case(op, c03.binary_args(shape, pa, pb, "sparse", rng, "sorted", "sorted"), rng))
+    # huge sparse operands (wave 4): more than 2**22 candidate row pairs inside the row helpers (both operands store > 2048 rows) —
+    # a size-dependent path there (sort + binary search instead of the all-pairs comparison) is invisible below that; 2-way /
+    # 3-way shapes with short modes (the Coq side compares unary naturals); stored orders identity / reversed / one random for each operand
+    for shape, op in ((((13, 14, 13), "mul"),) if not big else (((13, 14, 13), "mul"), ((48, 48), "and"), ((13, 14, 13), "le"), ((48, 48), "mul"))):
+        n = math.prod(shape)
+        pa, pb = [1] * n, [1] * n
+        for k in rng.sample(range(n), 150):
+            pa[k] = 0
+        for k in rng.sample(range(n), 150):
+            pb[k] = 0
+        cases.append(mk_huge(op, c03.binary_args(shape, pa, pb, "sparse", rng, "sorted", "sorted"), rng))
     # regression (A-07, repaired by /repo e2beb21): sparse/sparse with the common subscripts stored in different relative orders, and
     # with a divisor whose support lies inside the dividend's (no 0/x position: the quotient must be well-formed for every order)
     for a, b in ((([[1, 1], [0, 0]], [3, 2]), ([[0, 0], [1, 1]], [5, 7])),
@@ -188,7 +242,22 @@ def gen_cases(rng, tier):
         cases.append(mk_case("from_agg", {"shape": list(shape), "subs": rows, "vals": rv}, rng))
     # second stream: scalar-valued operations and every other public operation on a sparse tensor
     cases += X.gen_ext(rng, tier, lambda op, a: mk_case(op, a, rng))
-    return cases
+    cases += X.gen_huge(rng, tier, lambda op, a: mk_huge(op, a, rng))
+    # the huge cases cost ~0.2 GB and 5-10 s of coqc each: spread them over the shards (400 consecutive cases per coqc process)
+    hs = [c for c in cases if c.args.get("huge")]
+    cases = [c for c in cases if not c.args.get("huge")]
+    for j, h in enumerate(hs):
+        cases.insert(min(len(cases), 200 + 410 * j), h)
+    # wave 4: inside the trigger of an open finding the mismatch of the case above is attributed to the finding; the SAME request is
+    # therefore judged once more against the AS-IS model (Props/C06W4.v: C06_div_sparse_*, C06_squash_asis_*), with no attribution:
+    # whatever else goes wrong on these inputs is reported
+    twins = []
+    for c in cases:
+        if c.op == "div" and _div_sparse_zero_over_x(c):
+            twins.append(Case("div_asis", dict(c.args), c.nontrivial))
+        elif c.op == "squash" and _squash_shape(c):
+            twins.append(Case("squash_asis", dict(c.args), c.nontrivial))
+    return cases + twins
 
 
 # ---------------------------------------------------------------------------------------------
@@ -197,7 +266,9 @@ def gen_cases(rng, tier):
 def run_one(op, a):
     import numpy as np
     import pyttb as ttb
-    if op == "squash":
+    if op == "div_asis":
+        return run_elementwise("div", a)
+    if op in ("squash", "squash_asis"):
         try:
             S = tgen.mk_sptensor(ttb, np, a["shape"], a["subs"], a["vals"])
             R = S.squash()
@@ -240,7 +311,7 @@ def run_plan(c):
     stream) the identity order with a Fortran-ordered subscript array and with strided views handed over without a copy"""
     a = c.args
     plan = [(pa, pb, None) for pa, pb in a["variants"]]
-    if c.op in X.LAYOUT_OPS:
+    if c.op in X.LAYOUT_OPS and not a.get("huge"):
         pa, pb = a["variants"][0]
         plan += [(pa, pb, "F"), (pa, pb, "view")]
     return plan
@@ -274,6 +345,8 @@ def coq_check(c, o):
         return "false"
     if c.op in X.EXT_OPS:
         return None if pending(c, o) else X.check_ext(c, runs)
+    if c.op in ("div_asis", "squash_asis"):
+        return check_asis(c, runs)
     kinds = {r.get("kind") for r in runs}
     if len(kinds) != 1 or kinds - {"sparse", "dense"}:
         return "false"
@@ -294,6 +367,8 @@ def coq_check(c, o):
             return f"all_same_xsparse {glist([c03.gobs_sparse_x(r) for r in runs])}"
         if not all(tgen.all_int(r["vals"]) for r in runs):
             return "false"
+        if c.args.get("huge"):
+            return f"all_same_sorted {glist([X.gsp_sorted(r) for r in runs])}"
         fn = "all_same_sparse_e" if c.op == "squash" else "all_same_sparse"     # squash shapes can be large
         return f"{fn} {glist([c03.gobs_sparse_z(r) for r in runs])}" + extra
     if isdiv:
@@ -303,9 +378,66 @@ def coq_check(c, o):
     return "all_same_dense " + glist([tgen.gdense(r["shape"], r["data"]) for r in runs])
 
 
+def check_asis(c, runs):
+    """inside the trigger of C03-N7 / A-27: every run is what the as-is model returns on the operands as stored in that run (stored
+    order of the result included), structurally well-formed, and all runs denote the same array"""
+    plan = run_plan(c)
+    if any(r.get("kind") != "sparse" or not X.strict_ok(r) for r in runs):
+        return "false"
+    if c.op == "div_asis":
+        if not all(c03.raw_ok(r) for r in runs):
+            return "false"
+        items = []
+        for r, (pa, pb, _) in zip(runs, plan):
+            b = permuted(c.args, pa, pb)
+            items.append(f"({c03.gobs_sparse_x(r)}, ({U.gsp(b)}, {U.gsp(b, 'bsubs', 'bvals')}))")
+        # accepted: the code as it is (finding open) OR the property (finding repaired: well-formed, same canonical form)
+        return f"(div_asis_ok {glist(items)} || all_same_xsparse {glist([c03.gobs_sparse_x(r) for r in runs])})"
+    if not all(c03.raw_ok(r) and tgen.all_int(r["vals"]) for r in runs):
+        return "false"
+    items = [f"({c03.gobs_sparse_z(r)}, {U.gsp(permuted(c.args, pa, pb))})" for r, (pa, pb, _) in zip(runs, plan)]
+    spec = (f"(all_same_sparse_e {glist([c03.gobs_sparse_z(r) for r in runs])} && "
+            f"sp_raw_eqb {c03.gobs_sparse_z(runs[0])} (squash {U.gsp(permuted(c.args, plan[0][0], plan[0][1]))}))")
+    return f"(squash_asis_ok {glist(items)} || {spec})"
+
+
 # ---------------------------------------------------------------------------------------------
 # brute-force oracle
 # ---------------------------------------------------------------------------------------------
+def oracle_asis(c, runs):
+    """the as-is behaviour inside the triggers, by plain loops: one value per in-bounds subscript, pairwise distinct; sparse/sparse:
+    every cell stored, the stored value is 0 exactly where only the divisor stores the cell, NaN where the divisor does not, the
+    quotient elsewhere; squash: nnz entries, the values kept, every mode of extent nnz, ranks of the indices as subscripts"""
+    from fractions import Fraction
+    a = c.args
+    for r, (pa, pb) in zip(runs, labels(c)):
+        if "exc" in r:
+            return f"stored order {pa}/{pb}: raises {r['exc']}"
+        if r.get("kind") != "sparse":
+            return f"stored order {pa}/{pb}: returns {r.get('kind')}"
+        p = X.strict_problem(r) or U.wf_problems(r, r["shape"], zeros_ok=True)
+        if p:
+            return f"stored order {pa}/{pb}: {p}"
+        got = {tuple(s_): v for s_, v in zip(r["subs"], r["vals"])}
+        if c.op == "div_asis":
+            A = {tuple(s_): v for s_, v in zip(a["subs"], a["vals"])}
+            B = {tuple(s_): v for s_, v in zip(a["bsubs"], a["bvals"])}
+            if r["shape"] != a["shape"]:
+                return f"shape {r['shape']}"
+            for i in itertools.product(*[range(d) for d in a["shape"]]):
+                want = "nan" if i not in B else (0 if i not in A else Fraction(A[i], B[i]))
+                g = got.get(i, "absent")
+                if g in ("absent", "inf", "-inf") or (want == "nan") != (g == "nan") or (want != "nan" and abs(Fraction(g) - want) > Fraction(1, 10 ** 9) * max(1, abs(want))):
+                    return f"stored order {pa}/{pb}: quotient at {list(i)} is {g}, the repaired code gives {want}"
+        else:
+            n = len(a["subs"])
+            ranks = [sorted({s_[m] for s_ in a["subs"]}) for m in range(len(a["shape"]))]
+            want = {tuple(ranks[m].index(s_[m]) for m in range(len(a["shape"]))): v for s_, v in zip(a["subs"], a["vals"])}
+            if r["shape"] != [n] * len(a["shape"]) or got != want:
+                return f"stored order {pa}/{pb}: squash gives shape {r['shape']} entries {got}; as-is model: shape {[n] * len(a['shape'])} entries {want}"
+    return None
+
+
 def canon_py(r):
     if r["kind"] == "dense":
         return ("dense", tuple(r["shape"]), tuple(map(str, r["data"])))
@@ -325,6 +457,11 @@ def oracle(c, o):
             return f"stored order {pa}/{pb}: raises {r['exc']} while another stored order of the same operands returns a result"
     if c.op in X.EXT_OPS:
         return X.oracle_ext(c, runs, labels(c))
+    if c.op in ("div_asis", "squash_asis"):
+        # the property itself (finding repaired) or the as-is behaviour (finding open) — anything else is reported
+        if oracle(Case(c.op[:-5], c.args, c.nontrivial), o) is None:
+            return None
+        return oracle_asis(c, runs)
     for r, (pa, pb) in zip(runs, labels(c)):
         if r["kind"] == "sparse":
             shape = r["shape"] if c.op == "squash" else c.args["shape"]
